@@ -1471,10 +1471,53 @@ class Engine:
         self.ev(path, st.value)
         return [Outcome("normal", path)]
 
+    def st_FunctionDef(self, st, path):
+        path.env[st.name] = SFunc(st)
+        return [Outcome("normal", path)]
+
+    def _local_call(self, path, e):
+        """(func, args) if e is a call of a closure defined in the function under contract"""
+        if isinstance(e, ast.Call) and isinstance(e.func, ast.Name) and isinstance(path.env.get(e.func.id), SFunc):
+            return path.env[e.func.id], e
+        return None
+
+    def call_local(self, path, func: SFunc, call):
+        """execute a closure in line; returns [(kind, path, value)] with kind in value | raise"""
+        args = [self.ev(path, a) for a in call.args]
+        outer = dict(path.env)
+        params = [a.arg for a in func.node.args.args]
+        for pn, av in zip(params, args):
+            path.env[pn] = av
+        res = []
+        for o in self.exec_block(func.node.body, path):
+            env_after = dict(outer)
+            # nonlocal effects are not supported: names of the enclosing function keep their values
+            o.path.env = env_after
+            if o.kind == "return":
+                res.append(("value", o.path, o.value))
+            elif o.kind == "normal":
+                res.append(("value", o.path, SNone()))
+            elif o.kind == "raise":
+                res.append(("raise", o.path, o.value))
+            else:
+                raise EngineError("break/continue leaving a closure")
+        return res
+
     def st_Pass(self, st, path):
         return [Outcome("normal", path)]
 
     def st_Assign(self, st, path):
+        lc = self._local_call(path, st.value)
+        if lc is not None:
+            outs = []
+            for kind, p2, val in self.call_local(path, *lc):
+                if kind == "raise":
+                    outs.append(Outcome("raise", p2, val))
+                else:
+                    for tgt in st.targets:
+                        self.assign(p2, tgt, val)
+                    outs.append(Outcome("normal", p2))
+            return outs
         v = self.ev(path, st.value)
         for tgt in st.targets:
             self.assign(path, tgt, v)
@@ -1600,6 +1643,9 @@ class Engine:
         return [Outcome("normal", path)]
 
     def st_Return(self, st, path):
+        lc = self._local_call(path, st.value) if st.value is not None else None
+        if lc is not None:
+            return [Outcome("raise", p2, val) if kind == "raise" else Outcome("return", p2, val) for kind, p2, val in self.call_local(path, *lc)]
         v = self.ev(path, st.value) if st.value is not None else SNone()
         return [Outcome("return", path, v)]
 
